@@ -27,9 +27,15 @@ func (c *decrypt3k3yCmd) Run() error {
 		return err
 	}
 
-	fmt.Printf("Decrypting 3k3y image %s ...\n", c.Image.Name())
+	// output must not look like 3k3y image anymore, otherwise server will try to decrypt it again
+	imageMasked, err := fs.NewISO3k3y(imageWrapped)
+	if err != nil {
+		return err
+	}
 
-	_, err = io.Copy(c.Output, imageWrapped)
+	fmt.Fprintf(os.Stderr, "Decrypting 3k3y image %s ...\n", c.Image.Name())
+
+	_, err = io.Copy(c.Output, imageMasked)
 	return err
 }
 
@@ -50,7 +56,7 @@ func (c *decryptRedumpCmd) Run() error {
 		return err
 	}
 
-	fmt.Printf("Decrypting Redump image %s ...\n", c.Image.Name())
+	fmt.Fprintf(os.Stderr, "Decrypting Redump image %s ...\n", c.Image.Name())
 
 	_, err = io.Copy(c.Output, imageWrapped)
 	return err
